@@ -49,6 +49,14 @@ CHECKS.update({
             "DESIGN.md section 5 C10"),
 })
 
+CHECKS.update({
+    "C04": ("other",
+            "symbolic execution (symx/z3) of the real ExecutionController via the real run_single_step: guard outcomes, set iteration orders (ranked containers) and dynamic request sets are solver variables; DAG shapes enumerated",
+            "Bounded symbolic checking: for every DAG on N<=4 statements (thorough 5) the real controller is explored over ALL guard valuations, ALL distinguishable iteration orders of the dependency and sink sets and ALL request sets (<=2 requests per step); per path the callback log must show every statement visited once, after its dependencies, exec iff guard, requested statements (with unvisited dependencies) before anything pending. A second harness runs hand-written Nop/Assign/YieldState statements through the unmodified evaluate_condition/exec_* with symbolic flag values.",
+            "Trusted: z3, symx, the log oracle in vf/checks/c04.py. Iteration orders = those expressible as one global rank. Steps cut short by failures are covered by C01/C11.",
+            "DESIGN.md section 5 C04"),
+})
+
 NOT_APPLICABLE = {
 }
 
